@@ -431,7 +431,8 @@ fn exec<L: LangInterpreter>(l: &L, case: &Case, stats: &mut Stats) -> RunResult 
     RunResult { fingerprint: fp.finish(), nontrivial: a || b, events: (case.toks.len() + case.text.len()) as u64, violation: None }
 }
 
-const EXOTIC: [&str; 22] = [
+const EXOTIC: [&str; 30] = [
+    "\u{feff}", "\u{200e}", "\u{2028}", "\u{ad}", "\u{fffd}", "\u{2010}", "\u{2011}", "\u{2060}",
     "é", "e\u{301}", "naïve", "שלום", "مرحبا", "日本語", "😀", "👨\u{200d}👩\u{200d}👧", "42", "3rd", "ß", "İ", "ǅ", "\u{200b}", "ﬁ", "Ⅷ", "x²",
     "a\u{308}\u{323}", "--", "'", "l'", "o'clock",
 ];
@@ -446,6 +447,8 @@ pub fn gen_text(rng: &mut Rng, pool: &Pool, cfg: &GenCfg, nwords: usize) -> Stri
     let mut s = String::new();
     if rng.chance(1, 6) {
         s.push_str(rng.word(&SEPS));
+    } else if exotic_pct > 0 && rng.chance(1, 8) {
+        s.push_str(rng.word(&EXOTIC));
     }
     for (i, t) in toks.iter().enumerate() {
         if i > 0 {
